@@ -1,0 +1,28 @@
+//go:build verif
+// +build verif
+
+package workceptor
+
+import (
+	"fmt"
+	"os"
+)
+
+// verifStatusWrite appends one line per rewrite of a status record to the file named by $VERIF_STATUS_LOG:
+//
+//	pid file oldState oldStdoutSize newState newStdoutSize
+//
+// It is called while the status file lock is held, so the lines of one unit are totally ordered. It exists only in
+// builds with the "verif" tag (external verification harness; see /verif).
+func verifStatusWrite(filename string, oldState int, oldSize int64, newState int, newSize int64) {
+	logName := os.Getenv("VERIF_STATUS_LOG")
+	if logName == "" {
+		return
+	}
+	f, err := os.OpenFile(logName, os.O_APPEND|os.O_CREATE|os.O_WRONLY, 0o600)
+	if err != nil {
+		return
+	}
+	defer f.Close()
+	fmt.Fprintf(f, "%d %s %d %d %d %d\n", os.Getpid(), filename, oldState, oldSize, newState, newSize)
+}
